@@ -255,9 +255,10 @@ Fixpoint cnest_from (h : list cres) (p : list caction) : list (cres * cres) :=
 
 (** update() before fix 68f1e2d (git show 68f1e2d^:src/progress_bar.rs:276-279):
     `self.state().update(now, f, self.ticker.lock().unwrap().is_none())` - the receiver is
-    evaluated before the argument, both temporaries live to the end of the statement. *)
+    evaluated before the argument, both temporaries live to the end of the statement.  This is
+    literally what tools/locks_extract.py emits for that revision of the source. *)
 Definition old_update_fp : list caction :=
-  [CAcq CBar; CAcq CSlot; CCallback; CTick; CAcq CMulti; CRel CMulti; CRel CSlot; CRel CBar].
+  [CAcq CBar; CAcq CSlot; CCallback; CTick; CCallback; CAcq CMulti; CCallback; CRel CMulti; CRel CSlot; CRel CBar].
 
 (* ------------------------------------------------------------------ Part 3 *)
 
